@@ -825,7 +825,10 @@ func (ctx *context) Run() (res *Result) {
 
 	defer func() {
 		if r := recover(); r != nil {
-			ctx.res.runErr = fmt.Errorf("%s", r)
+			// keep an error reported earlier (eg by the data tree)
+			if ctx.res.runErr == nil {
+				ctx.res.runErr = fmt.Errorf("%s", r)
+			}
 			res = ctx.res
 		}
 		ctx.saveDebug()
@@ -839,6 +842,12 @@ func (ctx *context) Run() (res *Result) {
 		instr.fn(ctx)
 		ctx.addDebug(ctx.pfx + "----\n")
 		_ = x
+		// An instruction that failed (eg the data tree returned an error)
+		// has not pushed its result: stop instead of running the remaining
+		// instructions on a short stack.
+		if ctx.res.runErr != nil {
+			break
+		}
 	}
 
 	return ctx.res
